@@ -642,8 +642,13 @@ class NUMERIC(FieldType):
         return min_value, max_value
 
     def default_column(self):
-        return columns.NumericColumn(self.sortable_typecode,
-                                     default=self.default)
+        default = self.default
+        if default != default:
+            # The column holds sortable integers, which cannot represent the
+            # NaN default of a float field directly; the highest sortable
+            # value decodes back to NaN
+            default = typecode_max[self.sortable_typecode]
+        return columns.NumericColumn(self.sortable_typecode, default=default)
 
     def is_valid(self, x):
         try:
@@ -835,6 +840,10 @@ class DATETIME(NUMERIC):
         return self.prepare_datetime(x)
 
     def from_column_value(self, x):
+        if x == self.default:
+            # Documents without a value hold the column default, which is far
+            # beyond the range of datetime
+            return None
         return long_to_datetime(x)
 
     def to_bytes(self, x, shift=0):
